@@ -183,6 +183,15 @@ def run_property(pid, tier, only_unit=None, extra_env=None, keep=False):
             if rc != 0:
                 crashes.append((r[1]["name"] + (".race" if r[5] else ""), rc, r[3]))
         layers = []
+        currents = []
+        for f in sorted(glob.glob(os.path.join(outdir, "current-*.txt"))):
+            c = open(f, errors="replace").read().strip()
+            if c:
+                currents.append(os.path.basename(f) + ": " + c)
+        if currents and crashes:
+            crashes = [(n, rc, lp, currents) for (n, rc, lp) in crashes]
+        else:
+            crashes = [(n, rc, lp, []) for (n, rc, lp) in crashes]
         for f in sorted(glob.glob(os.path.join(outdir, "*.json"))):
             layers.append(json.load(open(f)))
     finally:
@@ -270,7 +279,7 @@ def finish(pid, tier, layers, crashes, infra_error, wall):
         n_viol += 1
         out_lines.append("VIOLATION property=%s replay=%s" % (pid, rp))
         out_lines.append("  sig=%s layer=%s cases=%d detail=%s" % (sig, layer, count, json.dumps(detail, default=str)[:1500]))
-    for (name, rc, lp) in crashes:
+    for (name, rc, lp, currents) in crashes:
         # a harness process that died: a panic outside any per-case guard, a
         # deadlock caught by the go test timeout, or os.Exit from the code under test
         tail = ""
@@ -284,7 +293,7 @@ def finish(pid, tier, layers, crashes, infra_error, wall):
             continue
         n_viol += 1
         out_lines.append("VIOLATION property=%s replay=%s" % (pid, lp))
-        out_lines.append("  harness process %s ended with rc=%s (panic/deadlock/exit in code under test); log tail:\n%s" % (name, rc, tail[-1500:]))
+        out_lines.append("  harness process %s ended with rc=%s (panic/deadlock/exit in code under test); case in progress: %s; log tail:\n%s" % (name, rc, "; ".join(currents), tail[-1500:]))
 
     evidence = {
         "property_id": pid, "tier": tier, "seed": int(os.environ.get("VERIF_SEED", "0") or 0),
